@@ -238,7 +238,15 @@ CLAIMS = {
     },
     "C15": {
         "category": "other",
-        "text": "Bounded stand-in (not a proof): the real TestCase operations (append_test_case_from through the real "
+        "text": "Two parts. (1) Proved for all inputs (VCs from the real AST, z3/cvc5): TestCase.append_test_case_from -- the "
+                "building block of single-point crossover -- together with _resolve_head_references, add_statement, next_var_name, "
+                "variables_of_type, statements and _VariableRenamer.__init__: if both parents are well-formed (every test-case "
+                "variable a statement reads is bound by an earlier statement; bound names pairwise distinct, below the name "
+                "counter and registered under their type), then so is the result, for any cut point and any number of statements "
+                "(loop invariants over the rename map, the dropped set and the head types). Assumed, not proved: "
+                "Statement.used_variables returns the variable names of the libcst node (USED), CSTNode.visit(_VariableRenamer) "
+                "renames exactly the names in the map and keeps the node kind, randomness.choice returns a member. "
+                "(2) Bounded stand-in (not a proof): the real TestCase operations (append_test_case_from through the real "
                 "splice_test_case_chromosomes, chop, remove_statement_with_forward_dependencies, forward_dependencies, clone, "
                 "remove_unused_variables) are run on every well-formed test case of <= 2 (thorough: 3) statements as first parent "
                 "and <= 3 statements as second parent over 7 statement templates (typed/untyped bindings, calls without binding, "
@@ -246,10 +254,12 @@ CLAIMS = {
                 "result is checked for: valid Python, every read variable bound by an earlier statement, pairwise distinct bound "
                 "names below the name counter, type registry equal to the statements, length within the maximum, other parent "
                 "unchanged, forward closure complete.",
-        "technique": "bounded contract check, exhaustive small scope (the operations rename variables through libcst visitors; a "
-                     "deductive proof of append_test_case_from is planned in DESIGN.md but not built)",
-        "note": "no unbounded claim; the test factory (insertion, deletion and change of statements, 2.7k lines of libcst "
-                "manipulation) and local search are not covered; 'valid Python' is checked by parsing the rendered test case.",
+        "technique": "contract-based deductive verification of the crossover building block (pyvc: sidecar contracts, loop "
+                     "invariants with a derived cut, VCs from the real source) plus a bounded contract check, exhaustive small "
+                     "scope, for the remaining TestCase operations",
+        "note": "the property as a whole is not claimed proved: the test factory (insertion, deletion and change of statements, "
+                "2.7k lines of libcst manipulation) and local search are not covered; 'valid Python' is checked only in the "
+                "bounded part, by parsing the rendered test case; the libcst visitor contracts are assumptions.",
     },
     "C22": {
         "category": "other",
